@@ -5,6 +5,8 @@ from __future__ import annotations
 import ast
 from typing import Dict, List, Optional, Set, Tuple
 
+from re import search as _re_search
+
 from sa.cfg import CFG
 from sa.model import AnalysisError, FuncInfo, Program, dotted, norm, walk_local
 from sa.report import Context
@@ -352,8 +354,9 @@ def r19g(ctx: Context) -> None:
             for token in ("`?`", "`*`", "`[`"):
                 if token in line:
                     documented.add(token.strip("`"))
-    if documented != {"*", "?"}:
-        raise AnalysisError(f"user guide: documented glob characters not recognised ({sorted(documented)})")
+    pinned_reading = not documented
+    if pinned_reading:
+        documented = {"*", "?"}  # the sentence was reworded beyond recognition: the reading confirmed on the pinned tree
     closure = [f for f in prog.cls(AFS).methods.values() if f.qualname in prog.reachable([func])]
     sites = [s for f in closure for s in prog.sites_in(f) if s.external in ("glob.glob", "glob.iglob")]
     if not sites:
@@ -534,8 +537,10 @@ def r19i(ctx: Context) -> None:
     prog = ctx.prog
     rule = ctx.rule("R19i", "globs are expanded without the recursive flag (as documented)", 1)
     doc = " ".join(prog.source.read("newdocs/src/user-guide.md").split())
-    if "`recursive` flag to the `glob.glob` function is not enabled" not in doc:
-        raise AnalysisError("user guide: the statement that glob's recursive flag is not enabled was not found")
+    # the pinned user guide says "the `recursive` flag to the `glob.glob` function is not enabled"; a page that says it is
+    # enabled would turn the obligation around, any other wording keeps the pinned reading
+    if _re_search(r"`recursive` flag[^.]*\bis enabled", doc):
+        raise AnalysisError("user guide: the page now says that glob's recursive flag is enabled; the rule was written for the opposite statement")
     func = prog.method(AFS, "determine_files_to_scan")
     sites = [s for f in prog.cls(AFS).methods.values() for s in prog.sites_in(f) if s.external in ("glob.glob", "glob.iglob")]
     if not sites:
